@@ -134,6 +134,7 @@ def run(rep: core.Report):
 
     _r19d(rep)
     _r19e(rep)
+    _r19h(rep)
     _r19f(rep)
     _r19g(rep)
     # R19c
@@ -258,6 +259,61 @@ def _r19g(rep):
     dm = core.find_def(TD, f"{M}._get_disp_matrices")
     core.require_names(dm, ["c", "v", "m", "i"], f"{TD}::{M}._get_disp_matrices")
     sites.check(rep, "R19g", TD, f"{M}._get_disp_matrices", "assign", "c[i]", "np.outer(v, v.conj()) / m", "the per-atom matrix is not e e^dagger / m stored for atom i")
+
+
+
+def _r19h(rep):
+    """CIF convention: U_cart = (A N) U_cif (A N)^T with A the lattice vectors as columns and N = diag(|a*|, |b*|, |c*|),
+    a*, b*, c* the rows of A^-1."""
+    from engine import sites, symnp
+
+    rep.rule("R19h", "CIF convention of the displacement matrices: N is the diagonal matrix of the lengths of the reciprocal vectors (rows of inv(A), A = lattice vectors as columns), the stored transformation is inv(A N), and U_cif = inv(A N) U_cart inv(A N)^T; evaluated entry by entry on symbolic 3x3 matrices", 3)
+    M = "ThermalDisplacementMatrices"
+    init = core.find_def(TD, f"{M}.__init__")
+    lat = [a.arg for a in init.args.args + init.args.kwonlyargs if a.arg == "lattice"]
+    arms = [st for st in ast.walk(init) if isinstance(st, ast.If) and lat and lat[0] in core.src(st.test) and "None" in core.src(st.test)]
+    if not lat or len(arms) != 1:
+        raise AnalysisError(f"{TD}::{M}.__init__: the lattice argument or its None test vanished")
+    t = arms[0].test
+    given = arms[0].body if isinstance(t, ast.Compare) and isinstance(t.ops[0], ast.IsNot) else arms[0].orelse
+    A, B = symnp.matrix("a", 3, 3), symnp.matrix("b", 3, 3)
+
+    class Inv:
+        def __init__(self, m):
+            self.m = m
+
+    def hook(call, ev):
+        if core.src(call.func) == "np.linalg.inv" and call.args:
+            x = ev.ev(call.args[0])
+            if x is A or (symnp.shape(x) == (3, 3) and symnp.equal(x, A)):
+                return B
+            return Inv(x)
+        return None
+
+    evl = symnp.Evaluator({lat[0]: A}, where=f"{TD}::{M}.__init__", call_hook=hook)
+    got = None
+    for st in given:
+        if isinstance(st, ast.Assign) and len(st.targets) == 1:
+            v = evl.ev(st.value)
+            if isinstance(st.targets[0], ast.Name):
+                evl.env[st.targets[0].id] = v
+            elif core.src(st.targets[0]) == "self._ANinv":
+                got = v
+    if got is None:
+        raise AnalysisError(f"{TD}::{M}.__init__: self._ANinv is no longer set where a lattice is given")
+    want = [[A[i][j] * sp.sqrt(sum(B[j][k] ** 2 for k in range(3))) for j in range(3)] for i in range(3)]
+    ok = isinstance(got, Inv) and symnp.shape(got.m) == (3, 3) and symnp.equal(got.m, want)
+    shown = str(got.m[0][1]) if isinstance(got, Inv) and symnp.shape(got.m) == (3, 3) else type(got).__name__
+    rep.instance("R19h", TD, f"{M}.__init__", "self._ANinv = inv(A . diag(|row i of inv(A)|))", ok,
+                 f"the matrix that is inverted has entry (0, 1) = {shown} instead of a01 * |row 1 of inv(A)|: the diagonal matrix N does not hold the lengths of the reciprocal vectors a*, b*, c* (rows of the inverse of the column-vector lattice), so U_cif no longer satisfies U_cart = sum_ij U_cif_ij |a*_i||a*_j| a_i a_j^T unless inv(A) has rows and columns of equal length (cubic, orthorhombic P, fcc/bcc primitive)", line=arms[0].lineno)
+    run = core.find_def(TD, f"{M}.run")
+    st = [a for a in ast.walk(run) if isinstance(a, ast.Assign) and core.src(a.targets[0]).startswith("self._disp_matrices_cif[")]
+    if len(st) != 1:
+        raise AnalysisError(f"{TD}::{M}.run: the store into self._disp_matrices_cif[...] vanished")
+    sites.check(rep, "R19h", TD, f"{M}.run", "assign", core.src(st[0].targets[0]), "np.dot(np.dot(self._ANinv, mat), self._ANinv.T)", "U_cif is not inv(A N) U_cart inv(A N)^T")
+    loops = [lp for lp in ast.walk(run) if isinstance(lp, ast.For) and "self._disp_matrices" in core.src(lp.iter)]
+    ok_ix = len(st) == 1 and len(loops) >= 1 and isinstance(loops[0].target, ast.Tuple) and core.src(st[0].targets[0].slice).replace(" ", "").strip("()").split(",")[0] == core.src(loops[0].target.elts[0])
+    rep.instance("R19h", TD, f"{M}.run", "the CIF matrix of temperature i, atom j is stored at [i, j]", ok_ix, "the transformed matrices are not stored at the position of the Cartesian matrix they come from", line=run.lineno)
 
 
 def _r19f(rep):
@@ -401,4 +457,6 @@ def selftest():
     b("displacements multiplied by the masses", TD, "                vecs2 = (abs(vecs) ** 2).T / masses", "                vecs2 = (abs(vecs) ** 2).T * masses", "R19g", "vecs2")
     b("q-point average off by one", TD, "        self._displacements = disps / (count + 1)", "        self._displacements = disps / count", "R19g", "_displacements")
     b("displacement matrix without conjugation", TD, "                    c[i] = np.outer(v, v.conj()) / m", "                    c[i] = np.outer(v, v) / m", "R19g", "c[i]")
+    b("CIF normalisation with column norms of the inverse lattice", TD, "            N = np.diag([np.linalg.norm(x) for x in np.linalg.inv(A)])", "            N = np.diag(np.linalg.norm(np.linalg.inv(A), axis=0))", "R19h", "ANinv")
+    n("CIF normalisation with row norms, vectorised", TD, "            N = np.diag([np.linalg.norm(x) for x in np.linalg.inv(A)])", "            N = np.diag(np.linalg.norm(np.linalg.inv(A), axis=1))")
     return V
